@@ -1,6 +1,8 @@
 (** Property C02 — dynamic values cannot change document structure (HTML escaping).
-    OBLIGATIONS: C02_escape_chars C02_unescape_escape C02_escape_injective C02_nonvacuous *)
-From GV Require Import Base.GoStr Proofs.EscapeProofs.
+    OBLIGATIONS: C02_escape_chars C02_unescape_escape C02_escape_injective C02_dynamic_text_code
+                 C02_dynamic_attr_always_escaped C02_nonvacuous *)
+From GV Require Import Base.GoStr Proofs.EscapeProofs Compiler.Emit Proofs.EmitProofs Proofs.DynamicProofs.
+Open Scope N_scope.
 
 (** an escaped value contains no angle bracket and no quote of either kind: it cannot open or close a tag or an attribute value *)
 Theorem C02_escape_chars : forall v b, In b (html_escape v) -> ~ meta b.
@@ -15,6 +17,33 @@ Print Assumptions C02_unescape_escape.
 Theorem C02_escape_injective : forall a b, html_escape a = html_escape b -> a = b.
 Proof. exact html_escape_inj. Qed.
 Print Assumptions C02_escape_injective.
+
+(** the code written for `= expr` / `#{expr}` (any writer state without an open literal): the value goes through
+    goht.EscapeString exactly once in an escaping context, and not at all in an unescaped one (`!=`, `!`, plain filters) *)
+Theorem C02_dynamic_text_code : forall sm t st, quiet st ->
+  let v := lit "__var" ++ itoa (N.of_nat (S (w_num (fst st)))) in
+  let ind := tabs (wl_indent (snd st)) in
+  txt (emit_dynamic sm t st) =
+    txt st ++
+    ind ++ lit "var " ++ v ++ lit " string" ++ [10] ++
+    ind ++ lit "if " ++ v ++ lit ", __err = goht.CaptureErrors(" ++
+      (if wl_unesc (snd st) then formatted_code t else lit "goht.EscapeString(" ++ formatted_code t ++ lit ")") ++
+      lit "); __err != nil { return }" ++ [10] ++
+    ind ++ write_string_open ++ v ++ lit "); __err != nil { return }" ++ [10].
+Proof. exact dynamic_text_code. Qed.
+Print Assumptions C02_dynamic_text_code.
+
+(** a dynamic attribute value is escaped whatever the context: the code after the attribute's opening chunk closes
+    the literal and writes EscapeString(expr) followed by the closing quote *)
+Theorem C02_dynamic_attr_always_escaped : forall sm (origin : token) st1,
+  w_err (fst st1) = None -> wl_static (snd st1) = true ->
+  txt (tw_wr (lit ")+""\""""); __err != nil { return }" ++ [10])
+         (write_formatted_text sm origin (tw_wri (write_string_open ++ lit "goht.EscapeString(") st1))) =
+    txt st1 ++ close_text (snd st1) ++
+    tabs (wl_indent (snd st1)) ++ write_string_open ++ lit "goht.EscapeString(" ++ formatted_code origin ++
+    lit ")+""\""""); __err != nil { return }" ++ [10].
+Proof. exact dynamic_attr_value_code. Qed.
+Print Assumptions C02_dynamic_attr_always_escaped.
 
 Example C02_nonvacuous : html_escape (lit "<a href=""x"">&'") = lit "&lt;a href=&#34;x&#34;&gt;&amp;&#39;".
 Proof. vm_compute. reflexivity. Qed.
